@@ -9,6 +9,15 @@ LEVEL_NOTE = ("Trusted base: clang 14 front end and CFG builder, the gsa-extract
               "Assumes the shipped configuration (GALOIS_USE_LONGJMP_ABORT, NDEBUG).")
 
 CHECKS = {
+    "C03": ("exhaustive evaluation, on every CFG path of every DoAllStealingExec instantiation of the driver matrix, of on_each "
+            "and of the thread pool, of: shared range and size only under work_mutex (lock-assuming helpers called with it "
+            "held); getWork/stealWork hand out a range, move the shared bound and update the size exactly on the success "
+            "paths; transferWork assigns exactly what it stole iff it stole; work before steal, exit only when the steal "
+            "failed; doWork applies the function once per position; cascade/decascade agree on midpoint, children and guard, "
+            "child ranges tile the parent's, done cleared before the release signal and set last after the children; region "
+            "body exactly once; on_each passes (tid, numT). Exactly-once under steal interleavings beyond the lock discipline "
+            "is not decided.",
+            "lock typestate + CFG pairing / sibling-agreement rules over clang AST facts", "4 C03"),
     "C04": ("exhaustive evaluation, on every CFG path of the ring and tree detectors and of every executor launch site, of: "
             "announcement guarded by token-held AND master AND previous-round-clean AND not-tainted; taint = token colour OR "
             "process colour read before clearing; reported work recorded before token handling; own flag cleared before "
